@@ -1,5 +1,6 @@
 (* C14 entry.
-   case   = (kind opts sizes input queries cfg)      as Model/EntryBBI.v, cfg = (threads inmemory nofault)
+   case   = (kind opts sizes input queries cfg [autosql])   kind 0/1 as Model/EntryBBI.v; kind 10/11 = bigBed
+            (Model/EntryBed.v input), judged by the oracle only; cfg = (threads inmemory nofault)
    model output = (status exact comparable trace runs prefixes faults refused-bytes)
      status      (0) | (1 code) | (2) | (3)
      exact       1 when the real trace is determined by the input (one chromosome, uncompressed,
@@ -72,7 +73,7 @@ Definition parts_exact (p : parts) : bool :=
   (p_nchroms p =? 1) && (Nlen (p_data p) <? CAP) && (Nlen (p_ct p) <? CAP) && (Nlen (p_ix p) - 48 <? CAP)
   && forallb zev_small (p_zev p).
 
-Definition c14_model (c : sexp) : sexp :=
+Definition c14_model_bw (c : sexp) : sexp :=
   let kind := getN (nthS 0 c) in
   let o := get_opts (nthS 1 c) in
   let sizes := get_sizes (nthS 2 c) in
@@ -94,6 +95,10 @@ Definition c14_model (c : sexp) : sexp :=
      L (prefixes h ops);
      L faults;
      sBytes (match pr with Ok _ => [] | _ => replay ops end)].
+
+(* kinds 10 and 11 are bigBed runs: no trace model, the oracle alone judges them *)
+Definition c14_model (c : sexp) : sexp :=
+  if 10 <=? getN (nthS 0 c) then L [] else c14_model_bw c.
 
 (* ---- the property on the implementation's output:
    out = (status trace runs prefixes torn faults) *)
